@@ -1,8 +1,9 @@
 Require Extraction.
 Require Import ExtrOcamlBasic.
 From Coq Require Import NArith ZArith List.
-From CppcmsV Require Import C04.Defs C04.DefsX C04.DefsU C04.DefsE.
+From CppcmsV Require Import C04.Defs C04.DefsX C04.DefsU C04.DefsE C04.DefsR C04.DefsN.
+From CppcmsV Require C20.Defs.
 From CppcmsV Require C14.Defs.
 Definition keep_types : (N * Z * nat) := (0%N, 0%Z, 0%nat).
-Extraction "c04m.ml" keep_types c_validate c_validate_and_filter c_validate_x c_validate_and_filter_x c_validate_e c_validate_and_filter_e c_validate_sel c_validate_and_filter_sel has_encoding named_compat C14.Defs.lookup uri_validate visible_scheme
+Extraction "c04m.ml" keep_types c_validate c_validate_and_filter c_validate_x c_validate_and_filter_x c_validate_e c_validate_and_filter_e c_validate_sel c_validate_and_filter_sel has_encoding named_compat C14.Defs.lookup parse_pattern C20.Defs.full_match parse_entity_c uri_validate visible_scheme
   split parse_part nest.
